@@ -455,6 +455,11 @@ static int set_global (hawk_rtx_t* rtx, int idx, hawk_nde_var_t* var, hawk_val_t
 				if (hawk_rtx_setrec(rtx, lv, &cs, 0) <= -1) return -1;
 			}
 
+			/* hawk_rtx_setrec() stores the new field count into NF by itself through
+			 * hawk_rtx_setgbl() and releases the value NF had. the value remembered at
+			 * the top of this function is not the one to release below any more. */
+			old = HAWK_RTX_STACK_GBL(rtx, idx);
+
 			/* for all other globals, it returns before this switch/case block is reached
 			 * if the same value is assigned. but NF change requires extra action to take
 			 * as coded before this switch/case block. */
